@@ -17,7 +17,7 @@
 (***************************************************************************)
 EXTENDS Naturals, Sequences, FiniteSets, FiniteSetsExt, SequencesExt, TLC
 
-CONSTANTS X, Y, SP, COMMA, QT, TAB, BAR, NL, DASH,
+CONSTANTS X, Y, SP, COMMA, QT, TAB, BAR, NL, DASH, ZED,     \* ZED: an exotic character (rendered by the harness as unicode spaces, tab, ...) used inside VW tokens
           Format,        \* "csv" | "tsv" | "vw"
           CellChars,     \* characters allowed inside cells / tokens for this run
           MaxCellLen, MaxCells,
@@ -83,7 +83,7 @@ ParseTSV(line) == IF StripWholeLine THEN Split(Strip(line), TAB)
 \* ---------------------------------------------------------------- VW
 \* vw = [label |-> token, ns |-> [1..NSCount -> [p |-> present?, t |-> sequence of tokens]]]
 NsId(k) == CASE k = 1 -> <<X, X>> [] k = 2 -> <<X, Y>> [] OTHER -> <<Y, X>>     \* two-character namespace ids
-VWTokens == {<<X, Y, X>>, <<X, Y>>, <<Y, Y, X, DASH, X>>, <<X>>}     \* prefix+body, prefix only, with a dash, shorter than the prefix
+VWTokens == {<<X, Y, X>>, <<X, Y>>, <<Y, Y, X, DASH, X>>, <<X>>, <<X, Y, X, ZED, X>>}     \* prefix+body, prefix only, with a dash, shorter than the prefix
 VWLabels == {<<X>>, <<DASH, X>>}                                      \* "1", "-1"
 Gap == IF wide THEN <<SP, SP>> ELSE <<SP>>
 RenderNs(k, toks) == <<BAR>> \o NsId(k) \o FoldLeft(LAMBDA acc, t : acc \o Gap \o t, <<>>, toks) \o (IF wide THEN <<SP>> ELSE <<>>)
